@@ -112,6 +112,16 @@ def _get_enforcer(namespace):
     return enforcer
 
 
+def _quote_text(text):
+    """Quote a text so that a YAML and a JSON parser read the same back."""
+    # NOTE: JSON escapes a character outside the basic multilingual plane as
+    # a surrogate pair, which a YAML parser reads as two characters; such a
+    # character is written as itself.
+    return '"%s"' % ''.join(
+        char if ord(char) > 0xFFFF else jsonutils.dumps(char)[1:-1]
+        for char in text)
+
+
 def _format_rule_text(name, check_str):
     """Format a rule as a quoted ``"name": "check string"`` pair.
 
@@ -121,7 +131,7 @@ def _format_rule_text(name, check_str):
         # A rule in the legacy list-of-lists syntax; write out the equivalent
         # check string
         check_str = str(_parser.parse_rule(check_str))
-    return '{}: {}'.format(jsonutils.dumps(name), jsonutils.dumps(check_str))
+    return '{}: {}'.format(_quote_text(name), _quote_text(check_str))
 
 
 def _format_help_text(description):
